@@ -94,3 +94,24 @@ func main() {
 		os.Exit(1)
 	}
 }
+
+func init() {
+	if len(os.Args) > 2 && os.Args[1] == "-list" {
+		v, err := LoadVerifier("/repo", "/verif/lib", []string{os.Args[2]})
+		if err != nil {
+			fmt.Println(err)
+			os.Exit(2)
+		}
+		var ks []string
+		for k := range v.funcs {
+			if strings.Contains(k, os.Args[3]) {
+				ks = append(ks, k)
+			}
+		}
+		sort.Strings(ks)
+		for _, k := range ks {
+			fmt.Println(k)
+		}
+		os.Exit(0)
+	}
+}
